@@ -231,8 +231,41 @@ def avgswitch_scenario(rng):
     return prog, dict(kind="avgswitch", cams=cams, ring=ring, streams=[0], acqs=[])
 
 
+def busyrestart_scenario(rng):
+    """kind "busyrestart": acquire_start on a runtime that is RUNNING with its queue full -- a fast camera, a slow storage device that
+    is in the middle of an append with everything mapped, the source parked on the full ring.  The call must fail without touching
+    the running acquisition's queue (C02 at the runtime level: the packet storage is working on stays intact)."""
+    cams = gen_cam_lines(rng, False)
+    c = cams[0]
+    c["trig"] = 0
+    c["pace"] = 0
+    fs = frame_size(c["w"], c["h"], c["t"])
+    ring = fs * rng.choice([2, 3, 4]) + rng.choice([0, 8, 16]) + 8
+    prog = ["ring %d" % ring, "filtring %d" % ring, "seed %d" % rng.randint(1, 1 << 30)]
+    if rng.random() < 0.3:
+        prog.append("pct %d" % rng.randint(1, 3))
+    prog.append("cam 0 w=%d h=%d type=%d trig=0 pace=0" % (c["w"], c["h"], c["t"]))
+    prog.append("stopace 0 %d" % rng.choice([5, 9, 14]))
+    prog.append("init")
+    prog.append("cfg 0 cam=A sto=A n=%d avg=0 delay=0" % (1 << 40))
+    prog.append("configure")
+    prog.append("start")
+    for _ in range(rng.randint(1, 4)):
+        prog.append("yield %d" % rng.randint(5, 90))
+        prog.append("start")                      # while running: refused
+        if rng.random() < 0.5:
+            break
+    prog.append("yield %d" % rng.randint(5, 60))
+    prog.append("abort")
+    prog.append("state")
+    prog.append("shutdown")
+    return prog, dict(kind="busyrestart", cams=cams, ring=ring, streams=[0], acqs=[])
+
+
 def scenario(rng, kind):
-    """Returns (program lines, meta).  kind in basic | monitor | abort | fault | api | avg | avgswitch."""
+    """Returns (program lines, meta).  kind in basic | monitor | abort | fault | api | avg | avgswitch | busyrestart."""
+    if kind == "busyrestart":
+        return busyrestart_scenario(rng)
     if kind == "api":
         return api_scenario(rng)
     if kind == "avgswitch":
@@ -963,6 +996,25 @@ def oracle(prog, lines, meta):
             if d["open"] and not d["closed"]:
                 add8(key, "not-closed", "device %s was opened but never closed by shutdown" % key)
     # ---- state reports
+    # "reports Running only while an acquisition's workers are alive" / "no longer reports Running once the workers have exited":
+    # worker threads = the threads the client thread creates inside acquire_start (T 0 create n), alive until their T n exit
+    alive_w = set()
+    in_start = False
+    for l in lines:
+        w = l.split()
+        if l.startswith("A start call"):
+            in_start = True
+        elif l.startswith("A start ->"):
+            in_start = False
+        elif len(w) >= 4 and w[0] == "T" and w[2] == "create" and w[1] == "0" and in_start:
+            alive_w.add(w[3])
+        elif len(w) >= 3 and w[0] == "T" and w[2] == "exit":
+            alive_w.discard(w[1])
+        elif l.startswith("A state ->") and w[3] == "Running" and not alive_w and not in_start:
+            msg = "acquire_get_state reports Running although every worker thread of the acquisition has exited"
+            add("C08", "running-with-no-worker-alive", msg)
+            if any(" FAIL" in x and x.startswith("D ") for x in lines):
+                add("C09", "running-with-no-worker-alive", msg + " [after a device fault]")
     prev = None
     for l in lines:
         if l.startswith(("A stop ->", "A abort ->")):
